@@ -92,16 +92,17 @@ def marking_model(ctx, K, maxeta, aniso, rng):
     judged = knife = 0
     for lay, path in carriers:
         events, meta = [], []
-        for eta, th in cases:
+        for ci, (eta, th) in enumerate(cases):
             mesh = ml.replay(lay, path)
             theta = _theta_float(*th)
+            scale = [1.0, 2.0 ** -40, 2.0 ** 30, 2.0 ** -70][ci % 4]
             if aniso:
                 pairs = [[eta[k], eta[N + k]] for k in range(N)]
                 tot = sum(eta)
-                op = ("dorfler_aniso", pairs, theta, {"th2": th, "judge": not _knife(tot, th[0], th[1], theta)})
+                op = ("dorfler_aniso", pairs, theta, {"th2": th, "judge": not _knife(tot, th[0], th[1], theta), "scale": scale})
             else:
                 tot = sum(eta)
-                op = ("dorfler_iso", list(eta), theta, {"th2": th, "judge": not _knife(tot, th[0], th[1], theta)})
+                op = ("dorfler_iso", list(eta), theta, {"th2": th, "judge": not _knife(tot, th[0], th[1], theta), "scale": scale})
             if not op[3]["judge"]:
                 knife += 1
             events.append(rm.reset_event(mesh, lay, False))
@@ -260,10 +261,11 @@ def random_traces(ctx, tier, seed):
                     judge = not _knife(sum(v), th[0], th[1], theta)
                     if not judge:
                         knife += 1
+                    scale = rng.choice([1.0, 1.0, 2.0 ** -40, 2.0 ** -60, 2.0 ** 25])
                     if aniso:
-                        op = ("dorfler_aniso", [[v[i], v[n + i]] for i in range(n)], theta, {"th2": th, "judge": judge})
+                        op = ("dorfler_aniso", [[v[i], v[n + i]] for i in range(n)], theta, {"th2": th, "judge": judge, "scale": scale})
                     else:
-                        op = ("dorfler_iso", v, theta, {"th2": th, "judge": judge})
+                        op = ("dorfler_iso", v, theta, {"th2": th, "judge": judge, "scale": scale})
                 events.append(rm.do_event(mesh, lay, op, with_nbrs=False))
         bad, jres = rm.judge(lay, events, timeout=3000)
         total += len(events)
